@@ -2,7 +2,7 @@
    on a stack of item types, using the abstract effect of each action (StackActs.v) and one summary
    per rule; `check_sound` proves with the logic of StackLogic.v that an expression that checks never
    drives the real actions (Actions.exec_action) into a crash site. *)
-From JP Require Import Peg Text Tree Actions Eval WF PegFacts ParseFacts ErrPos StackLogic TreeWf StackActs.
+From JP Require Import Peg Text Tree Actions Eval WF PegFacts ParseFacts ErrPos StackLogic TreeWf TreeText StackActs.
 From Coq Require Import Lia.
 Open Scope list_scope.
 Open Scope nat_scope.
@@ -143,7 +143,7 @@ Section Check.
     | 1 | 22 => Some None
     | _ => match sig n with
            | Some (req, out) =>
-               if Nat.eqb n 27 && negb (a_cap a) then None
+               if needs_cap n && negb (a_cap a) then None
                else match pops req (a_stk a) with
                     | Some r => Some (Some (mkA (out ++ r) (a_cap a)))
                     | None => None
@@ -168,7 +168,17 @@ Section Check.
     | PStar x | PPlus x =>
         let a' := mkA (a_stk a) false in
         match check c0 x a' with
-        | Some r => if leqr r (Some a') then Some (Some a') else None
+        | Some r =>
+            if leqr r (Some a') then Some (Some a')
+            else (* one widening step: the invariant is the join of the entry state and the state after one round *)
+              match join r (Some a') with
+              | Some (Some a2) =>
+                  match check c0 x a2 with
+                  | Some r2 => if leqr r2 (Some a2) then Some (Some a2) else None
+                  | None => None
+                  end
+              | _ => None
+              end
         | None => None
         end
     | POpt x => match check c0 x a with
@@ -187,7 +197,7 @@ Section Check.
         | SChain => match c0, a_stk a with
                     | CEmpty, [t] | CInit, [t] =>
                         match t with
-                        | TNode => Some (Some (mkA [TNode] false))
+                        | TNodeT => Some (Some (mkA [TNodeT] false))
                         | TRooted | TRootedH => Some (Some (mkA [TRootedH] false))
                         | _ => None
                         end
@@ -221,9 +231,9 @@ Section Check.
     match s with
     | SPush c tys => forall ps sv pr, holds c ps sv ->
         tr f (PRef r) (at_ (mk ps sv pr)) (Gam ps sv pr (mkA (rev tys) false))
-    | SChain => forall x sv pr, nwf x = true ->
+    | SChain => forall x sv pr, nwf x = true -> tlp true x = true ->
         tr f (PRef r) (at_ (mk [INode x] sv pr))
-           (fun y => exists x', snd y = mk [INode x'] sv pr /\ nwf x' = true /\ hvg x' = true /\
+           (fun y => exists x', snd y = mk [INode x'] sv pr /\ nwf x' = true /\ tlp true x' = true /\ hvg x' = true /\
                                 (rootedb x = true -> rootedb x' = true))
     | SOperand => forall ps sv pr, holds CInv ps sv ->
         tr f (PRef r) (at_ (mk ps sv pr))
@@ -245,7 +255,7 @@ Section Check.
     destruct (Nat.eq_dec n 22) as [->|N22]; [inversion Ht; subst; exact I|].
     assert (Ht' : match sig n with
                   | Some (req, out) =>
-                      if Nat.eqb n 27 && negb (a_cap a) then None
+                      if needs_cap n && negb (a_cap a) then None
                       else match pops req (a_stk a) with
                            | Some r => Some (Some (mkA (out ++ r) (a_cap a)))
                            | None => None
@@ -254,12 +264,12 @@ Section Check.
                   end = Some res).
     { do 23 (destruct n as [|n]; [try exact Ht; try (contradiction N1; reflexivity); try (contradiction N22; reflexivity)|]). exact Ht. }
     clear Ht Hb. destruct (sig n) as [[req out]|] eqn:Es; [|discriminate].
-    destruct (Nat.eqb n 27 && negb (a_cap a)) eqn:E27; [discriminate|].
+    destruct (needs_cap n && negb (a_cap a)) eqn:E27; [discriminate|].
     destruct (pops req (a_stk a)) as [r|] eqn:Ep; [|discriminate]. inversion Ht'; subst res. clear Ht'.
     destruct (pops_sound _ _ _ _ Ep Hty) as (vtop & vrest & -> & T1 & T2).
     rewrite rev_app_distr, app_assoc.
-    assert (Hc27 : n = 27 -> cps <> []).
-    { intros ->. cbn [Nat.eqb andb] in E27. apply Hcap. destruct (a_cap a); [reflexivity|discriminate]. }
+    assert (Hc27 : needs_cap n = true -> cps <> []).
+    { intros Hn. rewrite Hn in E27. cbn [andb] in E27. apply Hcap. destruct (a_cap a); [reflexivity|discriminate]. }
     pose proof (act_sound cfg parse_float regex_ok n req out vtop cps b (ps ++ rev vrest) sv pr Es T1 Hc27) as Ha.
     destruct (exec_action n cps b (mk ((ps ++ rev vrest) ++ rev vtop) sv pr)) as [st'|err|s]; cbn [wpa] in *; [|exact I|contradiction].
     destruct Ha as (vout & To & ->). exists (vout ++ vrest). cbn [a_stk a_cap Gres fst snd].
@@ -286,19 +296,39 @@ Section Check.
       + eapply tr_conseq; [idpre| |eapply IHx; eassumption]. intros z. apply Gres_leq. exact L1.
       + eapply tr_conseq; [idpre| |eapply IHy; eassumption]. intros z. apply Gres_leq. exact L2.
     - (* star *)
+      assert (Hpre : forall z, Gam ps sv pr a z -> Gam ps sv pr (mkA (a_stk a) false) z).
+      { intros z Hz. eapply Gam_leq; [|exact Hz]. unfold leq. cbn [a_stk a_cap]. rewrite leq_stk_refl. reflexivity. }
       destruct (check c0 x (mkA (a_stk a) false)) as [r|] eqn:Ex; [|discriminate].
-      destruct (leqr r (Some (mkA (a_stk a) false))) eqn:El; [|discriminate]. inversion Hc; subst res.
-      eapply tr_conseq; [| |apply tr_star with (J := Gam ps sv pr (mkA (a_stk a) false))].
-      + intros z Hz. eapply Gam_leq; [|exact Hz]. unfold leq. cbn [a_stk a_cap]. rewrite leq_stk_refl. reflexivity.
-      + intros z Hz. exact Hz.
-      + eapply tr_conseq; [idpre| |eapply IHx; eassumption]. intros z. apply (Gres_leq _ _ _ r (Some (mkA (a_stk a) false))). exact El.
+      destruct (leqr r (Some (mkA (a_stk a) false))) eqn:El.
+      + inversion Hc; subst res.
+        eapply tr_conseq; [exact Hpre| |apply tr_star with (J := Gam ps sv pr (mkA (a_stk a) false))].
+        * intros z Hz. exact Hz.
+        * eapply tr_conseq; [idpre| |eapply IHx; eassumption]. intros z. apply (Gres_leq _ _ _ r (Some (mkA (a_stk a) false))). exact El.
+      + destruct (join r (Some (mkA (a_stk a) false))) as [[a2|]|] eqn:Ej; try discriminate.
+        destruct (check c0 x a2) as [r2|] eqn:Ex2; [|discriminate].
+        destruct (leqr r2 (Some a2)) eqn:El2; [|discriminate]. inversion Hc; subst res.
+        destruct (join_ub _ _ _ Ej) as [_ L2]. cbn [leqr] in L2.
+        eapply tr_conseq; [| |apply tr_star with (J := Gam ps sv pr a2)].
+        * intros z Hz. eapply Gam_leq; [exact L2|]. apply Hpre. exact Hz.
+        * intros z Hz. exact Hz.
+        * eapply tr_conseq; [idpre| |eapply IHx; eassumption]. intros z. apply (Gres_leq _ _ _ r2 (Some a2)). exact El2.
     - (* plus *)
+      assert (Hpre : forall z, Gam ps sv pr a z -> Gam ps sv pr (mkA (a_stk a) false) z).
+      { intros z Hz. eapply Gam_leq; [|exact Hz]. unfold leq. cbn [a_stk a_cap]. rewrite leq_stk_refl. reflexivity. }
       destruct (check c0 x (mkA (a_stk a) false)) as [r|] eqn:Ex; [|discriminate].
-      destruct (leqr r (Some (mkA (a_stk a) false))) eqn:El; [|discriminate]. inversion Hc; subst res.
-      eapply tr_conseq; [| |apply tr_plus with (J := Gam ps sv pr (mkA (a_stk a) false))].
-      + intros z Hz. eapply Gam_leq; [|exact Hz]. unfold leq. cbn [a_stk a_cap]. rewrite leq_stk_refl. reflexivity.
-      + intros z Hz. exact Hz.
-      + eapply tr_conseq; [idpre| |eapply IHx; eassumption]. intros z. apply (Gres_leq _ _ _ r (Some (mkA (a_stk a) false))). exact El.
+      destruct (leqr r (Some (mkA (a_stk a) false))) eqn:El.
+      + inversion Hc; subst res.
+        eapply tr_conseq; [exact Hpre| |apply tr_plus with (J := Gam ps sv pr (mkA (a_stk a) false))].
+        * intros z Hz. exact Hz.
+        * eapply tr_conseq; [idpre| |eapply IHx; eassumption]. intros z. apply (Gres_leq _ _ _ r (Some (mkA (a_stk a) false))). exact El.
+      + destruct (join r (Some (mkA (a_stk a) false))) as [[a2|]|] eqn:Ej; try discriminate.
+        destruct (check c0 x a2) as [r2|] eqn:Ex2; [|discriminate].
+        destruct (leqr r2 (Some a2)) eqn:El2; [|discriminate]. inversion Hc; subst res.
+        destruct (join_ub _ _ _ Ej) as [_ L2]. cbn [leqr] in L2.
+        eapply tr_conseq; [| |apply tr_plus with (J := Gam ps sv pr a2)].
+        * intros z Hz. eapply Gam_leq; [exact L2|]. apply Hpre. exact Hz.
+        * intros z Hz. exact Hz.
+        * eapply tr_conseq; [idpre| |eapply IHx; eassumption]. intros z. apply (Gres_leq _ _ _ r2 (Some a2)). exact El2.
     - (* option *)
       destruct (check c0 x a) as [r|] eqn:Ex; [|discriminate]. destruct (join_ub _ _ _ Hc) as [L1 L2].
       apply tr_opt.
@@ -320,26 +350,22 @@ Section Check.
       + (* the node chain *)
         assert (Hps : ps = []) by (destruct c0; try discriminate; cbn [holds] in Hh; [exact Hh|apply Hh]).
         assert (Hshape : exists t t', a_stk a = [t] /\ res = Some (mkA [t'] false) /\
-                          ((t = TNode /\ t' = TNode) \/ ((t = TRooted \/ t = TRootedH) /\ t' = TRootedH))).
+                          ((t = TNodeT /\ t' = TNodeT) \/ ((t = TRooted \/ t = TRootedH) /\ t' = TRootedH))).
         { destruct c0; try discriminate; destruct (a_stk a) as [|t [|t2 l]]; try discriminate;
             destruct t; try discriminate; inversion Hc; subst res; do 2 eexists; repeat split; auto. }
         destruct Hshape as (t & t' & Ea & -> & Htt). subst ps.
         apply tr_pre_ex. intros x0 (vals & Hty & Hst & _). rewrite Ea in Hty.
         inversion Hty as [|v ? vs ? Hv Hvs]; subst. inversion Hvs; subst.
-        assert (Hn : exists nd, v = INode nd /\ nwf nd = true /\ (t' = TRootedH -> rootedb nd = true)).
+        assert (Hn : exists nd, v = INode nd /\ nwf nd = true /\ tlp true nd = true /\ (t' = TRootedH -> rootedb nd = true)).
         { destruct Htt as [[-> ->]|[[-> | ->] ->]]; destruct v; try discriminate Hv; cbn [has_ty] in Hv;
-            eexists; (split; [reflexivity|]).
-          - split; [exact Hv|discriminate].
-          - apply andb_true_iff in Hv. destruct Hv as [H1 H2]. split; [exact H1|intros _; exact H2].
-          - apply andb_true_iff in Hv. destruct Hv as [Hv _]. apply andb_true_iff in Hv. destruct Hv as [H1 H2].
-            split; [exact H1|intros _; exact H2]. }
-        destruct Hn as (nd & -> & Hnwf & Hroot0). cbn [rev app] in Hst.
-        eapply tr_conseq; [| |exact (Hsem nd sv pr Hnwf)].
+            eexists; (split; [reflexivity|]); split_hyps; repeat split; try assumption; try discriminate; try (intros _; assumption). }
+        destruct Hn as (nd & -> & Hnwf & Htl & Hroot0). cbn [rev app] in Hst.
+        eapply tr_conseq; [| |exact (Hsem nd sv pr Hnwf Htl)].
         * intros z ->. exact Hst.
-        * intros z (x' & Hs1 & Hw & Hh' & Hroot). exists [INode x']. cbn [a_stk a_cap Gres Gam rev app]. repeat split.
+        * intros z (x' & Hs1 & Hw & Ht' & Hh' & Hroot). exists [INode x']. cbn [a_stk a_cap Gres Gam rev app]. repeat split.
           -- constructor; [|constructor].
-             destruct Htt as [[_ ->]|[_ ->]]; cbn [has_ty]; [exact Hw|].
-             rewrite Hw, Hh', (Hroot (Hroot0 eq_refl)). reflexivity.
+             destruct Htt as [[_ ->]|[_ ->]]; cbn [has_ty]; [rewrite Hw, Ht'; reflexivity|].
+             rewrite Hw, Ht', Hh', (Hroot (Hroot0 eq_refl)). reflexivity.
           -- exact Hs1.
           -- discriminate.
       + (* a filter operand *)
